@@ -5,6 +5,7 @@ mod c02;
 mod c03;
 mod c04;
 mod c06;
+mod c09;
 mod c14;
 mod check;
 mod cuts;
@@ -20,6 +21,7 @@ mod rp;
 mod runs;
 mod sched;
 mod seams;
+mod served;
 mod sim;
 mod util;
 mod world;
@@ -37,8 +39,30 @@ fn usage() -> ! {
     std::process::exit(2);
 }
 
+/// Debugging aid: Krill's log output on stderr (VERIF_KRILL_LOG=<level>).
+struct StderrLog;
+
+impl log::Log for StderrLog {
+    fn enabled(&self, meta: &log::Metadata) -> bool {
+        meta.target().starts_with("krill")
+    }
+    fn log(&self, record: &log::Record) {
+        if self.enabled(record.metadata()) {
+            eprintln!("    LOG {} {}", record.level(), record.args());
+        }
+    }
+    fn flush(&self) { }
+}
+
 fn main() {
     world::install_panic_hook();
+    if let Ok(level) = std::env::var("VERIF_KRILL_LOG") {
+        if let Ok(level) = level.parse::<log::LevelFilter>() {
+            static LOGGER: StderrLog = StderrLog;
+            let _ = log::set_logger(&LOGGER);
+            log::set_max_level(level);
+        }
+    }
     let keypool = PathBuf::from(
         std::env::var("VERIF_KEYPOOL")
             .unwrap_or_else(|_| "/verif/keypool/keys.pem".into())
